@@ -332,6 +332,10 @@ def attribute_inputs(rng):
         "#[static, static", "#[static, static)", "#[foo(a), foo(", "#[foo(a), foo(a", "#[foo(a), foo(a)", "#[foo(a), foo(1)]",
         "#[constructor(new), static, constructor(new)] ", "#[static] #[static]", "#[static]\n#[static]",
         "#[constructor(new), constructor]", "#[constructor, constructor(new)]", "#[a, static, static]",
+        # several unsupported attributes in one list: WHICH one is reported depends on the HashMap order (documented
+        # nondeterminism); the oracle compares up to canon_msgs / nondeterministic_attrs
+        "#[bar(new, b), derive(new, A), static(new, A), constructor(new)]", "#[a, b, c, d, e, f, g, h]",
+        "#[a,\n b,\n c,\n d]", "#[static, derive(A), constructor(new), foo, bar, baz]", "#[x(a), y(b), z(c)]",
     ]
     for tn, tpl in targets:
         for i, l in enumerate(lists):
@@ -358,6 +362,70 @@ def attribute_inputs(rng):
         tn, tpl = rng.choice(targets)
         res.append(("attr:%s:rand" % tn, tpl % ("#[" + sep.join(items) + "]")))
     return res
+
+
+EXTRA_CONSTRUCTS = [
+    ("for_range", "for i in 0..3 { print(i); }"), ("for_vec_use", "for i in [1, 2, 3] { print(i); } return v0;"),
+    ("block_var", "{ var y = 1; print(y); }"), ("nested_fn_params", "fn g(a, b, c) { return a + b + c; } print(g(1, 2, 3));"),
+    ("try_finally", "try { var t = 1; } finally { var u = 2; }"), ("try_catch_finally", "try { var t = 1; } catch e { var c = e; } finally { var u = 2; }"),
+    ("lambda_expr", "var g = |a| a + 1;"), ("while_local", "while false { var t = 1; }"), ("if_else_vars", "if v0 { var a = 1; } else { var b = 2; }"),
+    ("compound", "v0 += 1; v1 -= v0;"), ("interp", 'print("a${v0}b${v1}");'), ("two_vars", "var y = 1; var z = 2;"),
+    ("class_in_fn_with_method_locals", "class K { fn m(self, a) { var t = a; for i in [1] { var u = i; } return t; } }"),
+    ("for_no_body_var_after", "for i in [1] {} var late = 1; print(late);"), ("import_plain", 'import "m";'),
+    ("static_method", "class S { #[static] fn s(a) { return a; } } print(S.s(1));"),
+]
+
+
+def boundary_inputs(quick):
+    """programs AT the compiler's limits, each limit followed by every statement kind that declares or uses something.
+    The program builders are C04's (tools/props/C04.py: boundary_program, params_program, COUNT_FAMILIES, _captures,
+    JUMP_FAMILIES, CONST_FAMILY).  -> (texts the parser model judges, texts judged on (T),(P),(E) only)"""
+    from props import C04
+    modelled, implonly = [], []
+    ks = [254, 255, 256, 257] if quick else list(range(248, 259))
+    tails = ("last", "then_var") if quick else C04.BOUNDARY_TAILS
+    constructs = [(n, c) for n, c, _ in C04.BOUNDARY_CONSTRUCTS] + EXTRA_CONSTRUCTS
+    for name, construct in constructs:
+        for k in ks:
+            for tail in tails:
+                src, _ = C04.boundary_program(name, construct, [], k, tail)
+                modelled.append(("boundary:locals:%s:%s:%d" % (name, tail, k), src))
+            # the same in a block at script level (locals of the script function) and inside a method / lambda block
+            pre = "".join("var v%d = %d;" % (i, i) for i in range(k))
+            body = construct % {"last": k - 1} if "%(" in construct else construct
+            if "return" not in body:
+                modelled.append(("boundary:blocklocals:%s:%d" % (name, k), C04.BOUNDARY_PRELUDE + "{ %s %s print(v0); }" % (pre, body)))
+            if not quick or k in (255, 256):
+                modelled.append(("boundary:methodlocals:%s:%d" % (name, k), C04.BOUNDARY_PRELUDE + "class W { fn w(self) { %s %s } }" % (pre, body)))
+                modelled.append(("boundary:lambdalocals:%s:%d" % (name, k), C04.BOUNDARY_PRELUDE + "var w = || { %s %s };" % (pre, body)))
+    for k in ([253, 254, 255, 256, 257] if quick else range(250, 259)):
+        for tail in C04.BOUNDARY_TAILS:
+            modelled.append(("boundary:params:%s:%d" % (tail, k), C04.params_program(k, tail)[0]))
+    for name, construct in constructs:
+        for k in ([254, 255, 256] if quick else range(252, 258)):
+            ps = ", ".join("v%d" % i for i in range(k))
+            body = construct % {"last": k - 1} if "%(" in construct else construct
+            modelled.append(("boundary:params+:%s:%d" % (name, k), C04.BOUNDARY_PRELUDE + "fn f(%s) { %s }" % (ps, body)))
+    for name, limit, build in C04.COUNT_FAMILIES:
+        for d in (-1, 0, 1, 2):
+            modelled.append(("boundary:count:%s:%d" % (name, limit + d), build(limit + d)))
+    for n in ((255, 256, 257, 258) if quick else range(250, 262)):
+        modelled.append(("boundary:captures:%d" % n, C04._captures(n)))
+    # constants in one chunk: literals (C04's family) and NAMES (identifier constants: globals read, defined, assigned,
+    # property and method names)
+    cname, climit, cbuild, _ = C04.CONST_FAMILY
+    for n in (climit - 1, climit, climit + 1, climit + 2):
+        implonly.append(("boundary:constants:literals:%d" % n, cbuild(n)))
+        implonly.append(("boundary:constants:names_read:%d" % n, "".join("g%d;" % i for i in range(n))))
+        implonly.append(("boundary:constants:names_defined:%d" % n, "".join("var g%d;" % i for i in range(n))))
+        implonly.append(("boundary:constants:properties:%d" % n, "var o;" + "".join("o.p%d;" % i for i in range(n - 1))))
+        implonly.append(("boundary:constants:mixed_then_use:%d" % n, "".join("%d.5;" % i for i in range(n - 3)) + "var a = 1; var b = a; print(b);"))
+    # jumps / loops around 65535 bytes: sweep the body size over the bound (2 bytes per `nil;`, 3 per `-nil;`)
+    for name, build, _ in C04.JUMP_FAMILIES:
+        for na in ((32760, 32764, 32765, 32766, 32767, 32768, 32770) if quick else range(32756, 32772)):
+            for nb in (0, 1):
+                implonly.append(("boundary:jump:%s:%d:%d" % (name, na, nb), build(na, nb)))
+    return modelled, implonly
 
 
 def code_size_inputs():
@@ -524,8 +592,27 @@ def at_class(m):
 # ---------------------------------------------------------------------------------------------------------
 # oracle
 
-def nondeterministic_attrs(impl_msg, model_msg):
-    return "Unsupported" in impl_msg and "attribute" in impl_msg and "Unsupported" in model_msg and "attribute" in model_msg
+# The ONLY nondeterminism of compile: `check_supported_attributes` iterates a HashMap (RandomState: the order differs
+# from process to process, also between two runs of the same build) and reports - panic mode - the first unsupported
+# attribute it meets.  Which of several unsupported attributes of one list is named (and on which line) is therefore
+# not determined by the text; that an `Unsupported <kind> attribute` message is reported is.
+UNSUPPORTED_RE = re.compile(r'\A\[module "main", line \d+\] Error at \'([^\']*)\': Unsupported (\w+) attribute \'([^\']*)\'\.\Z', re.S)
+
+
+def canon_msgs(msgs):
+    """multiset of messages with every order-dependent message reduced to what is determined"""
+    out = []
+    for m in msgs:
+        g = UNSUPPORTED_RE.match(m)
+        out.append("<unsupported %s attribute>" % g.group(2) if g else m)
+    return sorted(out)
+
+
+def nondeterministic_attrs(impl_msg, model_msg, src=""):
+    """first messages differ only in WHICH unsupported attribute of the list is named"""
+    a, b = UNSUPPORTED_RE.match(impl_msg), UNSUPPORTED_RE.match(model_msg)
+    return bool(a and b and a.group(2) == b.group(2) and a.group(1) == a.group(3) and
+                re.search(r"(?<![A-Za-z0-9_])%s(?![A-Za-z0-9_])" % re.escape(a.group(1)), src))
 
 
 def judge(ctx, tag, src, im, mo, st, model_applies=True):
@@ -586,7 +673,7 @@ def judge(ctx, tag, src, im, mo, st, model_applies=True):
             st["agree_err"] += 1
             st["errclasses"].add((mo.split(" ", 3)[3], at_class(mo)))
             st["recovered"] += len(im.msgs) > 1
-        elif nondeterministic_attrs(im.msgs[0], want):
+        elif nondeterministic_attrs(im.msgs[0], want, src):
             st["attr_nondet"] += 1
         else:
             st["corr"].append("first error differs: %r -> impl %r | model %r (family %s)" % (src[:300], im.msgs[0][:200], want[:200], tag))
@@ -617,10 +704,8 @@ def check_texts(ctx, cases, st, tag, debug_subset=None, model_applies=True):
                 continue
             if im.kind in ("crash", "panic"):
                 judge(ctx, fam + ":debug", s, im, model[i], st, model_applies)
-            elif r.kind in ("ok", "err") and (im.kind, im.msgs[:1], len(im.msgs)) != (r.kind, r.msgs[:1], len(r.msgs)) or \
-                    (r.kind in ("ok", "err") and im.msgs != r.msgs and not any("attribute" in m for m in im.msgs + r.msgs)):
-                # messages after the first may legitimately differ between two processes when attributes are involved
-                # (HashMap iteration order of check_supported_attributes after a recovery)
+            elif r.kind in ("ok", "err") and (im.kind, len(im.msgs), canon_msgs(im.msgs)) != (r.kind, len(r.msgs), canon_msgs(r.msgs)):
+                # two processes are compared up to the documented nondeterminism (canon_msgs)
                 st["corr"].append("debug and release builds disagree on %r: %r vs %r" % (s[:200], im, r))
     return impl, model
 
@@ -819,6 +904,17 @@ def run(ctx):
         check_texts(ctx, lim, st, "limits", debug_subset=list(range(len(lim))))
     if len(st["viol"]) < 5:
         check_texts(ctx, cs, st, "codesize", model_applies=False)
+    try:
+        bmod, bimpl = boundary_inputs(quick)
+    except Exception as e:      # C04's builders are reused; without them the family is skipped, loudly
+        bmod, bimpl = [], []
+        ctx.broken.append("boundary family not built (tools/props/C04.py builders): %s" % e)
+    if len(st["viol"]) < 5:
+        check_texts(ctx, bmod, st, "boundary", debug_subset=list(range(len(bmod))))
+    if len(st["viol"]) < 5:
+        check_texts(ctx, bimpl, st, "boundaryimpl", debug_subset=list(range(0, len(bimpl), 4)), model_applies=False)
+    st["boundary_inputs"] = len(bmod) + len(bimpl)
+    log("[C03] boundary family (%d modelled, %d compiler-only) judged at %.0fs" % (len(bmod), len(bimpl), time.time() - t0))
     att = attribute_inputs(rng)
     if len(st["viol"]) < 5:
         check_texts(ctx, att, st, "attrs", debug_subset=list(range(0, len(att), 3)))
@@ -882,7 +978,7 @@ def finish(ctx, st, uniq, lad, lim, cs, dist, corpus_texts, nrun, run_timeouts, 
     if st["fuel"]:
         ctx.broken.append("POutOfFuel verdicts: %d - contradicts C03_parse_fuel_enough (stale .vo or changed default_fuel?), e.g. %r" % (st["fuel"], st["fuel_samples"][:2]))
     novel = [s for s in st["accepted"] if s not in corpus_texts]
-    total = len(uniq) + len(lad) + len(lim) + len(cs) + st.get("kw", 0) + st.get("attr_inputs", 0)
+    total = len(uniq) + len(lad) + len(lim) + len(cs) + st.get("kw", 0) + st.get("attr_inputs", 0) + st.get("boundary_inputs", 0)
     # comments of the RULES array vs the kind names (information only: a comment is not code)
     try:
         with open(os.path.join(yvlib.COQ, "gen", "manifest.json")) as fh:
@@ -903,7 +999,7 @@ def finish(ctx, st, uniq, lad, lim, cs, dist, corpus_texts, nrun, run_timeouts, 
         "distinct_accepted_noncorpus": len(novel),
         "agree_ok": st["agree_ok"], "agree_err": st["agree_err"], "err_with_recovery_messages": st["recovered"],
         "out_of_fuel": st["fuel"], "not_judged_after_many_failures": st["skipped"], "code_size_dependent": st["codesize"], "attr_order_nondeterministic": st["attr_nondet"],
-        "texts_by_family": dist, "keyword_probes": st.get("kw", 0), "attribute_inputs": st.get("attr_inputs", 0),
+        "texts_by_family": dist, "keyword_probes": st.get("kw", 0), "attribute_inputs": st.get("attr_inputs", 0), "boundary_inputs": st.get("boundary_inputs", 0),
         "duplicate_attribute_error_classes": st.get("dup_attr_agreements", 0), "ladders": len(lad), "limits": len(lim), "code_size_inputs": len(cs),
         "debug_build_texts": ndebug, "run_sample": nrun, "run_timeouts_not_judged": run_timeouts,
         "operator_shapes": nshapes, "operator_shapes_discriminated": discr, "operator_programs": nprogs,
